@@ -37,8 +37,27 @@ def payload_cases(tier):
             yield {'extra': True, 'cfg': cfg, 'steps': c08.build_steps(cfg, 'N.;1', kind, payload)}
 
 
+def shared_boot_cases(tier):
+    """One boot file referenced by two El Torito entries (initial entry + section), longer than the first entry's load size says,
+    with and without its ISO9660 name (the length of a boot file that the ISO9660 walk does not see is reconstructed late in the parse)."""
+    cfgs = [ops.mk(3, joliet=3), ops.mk(3, udf=True)] + ([ops.mk(3, joliet=3, rr='1.09', udf=True), ops.mk(1)] if tier == 'thorough' else [])
+    firsts = [{'boot_load_size': 4}, {}, {'boot_load_size': 1, 'platform_id': 1}]
+    seconds = [{'efi': True, 'platform_id': 0xef, 'bootable': False}, {'boot_load_size': 4, 'platform_id': 0xef}, None]
+    for cfg in cfgs:
+        for content in ('boot5120', 'boot4097') if tier == 'thorough' else ('boot5120',):
+            for first in firsts:
+                for second in seconds:
+                    for hide in (True, False):
+                        steps = [[ops.add_fp(cfg, 'A', '/', content)], [['add_eltorito', dict(first, bootfile_path='/A.;1')]]]
+                        if second is not None:
+                            steps.append([['add_eltorito', dict(second, bootfile_path='/A.;1')]])
+                        if hide:
+                            steps.append([['rm_hard_link', {'iso_path': '/A.;1'}]])
+                        yield {'extra': True, 'cfg': cfg, 'steps': steps}
+
+
 def extra_tasks(tier):
-    cases = list(hybrid_cases(tier)) + list(payload_cases(tier))
+    cases = list(hybrid_cases(tier)) + list(payload_cases(tier)) + list(shared_boot_cases(tier))
     return [{'extra': True, 'cases': cases[i::32]} for i in range(32)]
 
 
@@ -67,6 +86,7 @@ def coverage_extra(tier, r):
 B = _std.default_bounds()
 B['quick'].append(('alpha', 'sigma11', [ops.mk(1), ops.mk(3, joliet=3, udf=True)], 4, 2))
 B['thorough'].append(('alpha', 'sigma11', [ops.mk(1), ops.mk(3, joliet=3, rr='1.09'), ops.mk(3, joliet=3, udf=True)], 5, 2))
+B['thorough'].append(('big', _std.BIG_GEN2))      # open . write of multi-gigabyte images on virtual devices
 
 _std.install(globals(), 'C05', 'model_checking', [master.oracle_fixpoint], B,
              ['virtual clock advanced between generations; only the volume modification dates are masked',
